@@ -497,9 +497,9 @@ let reraise_sch fx c =
      | None -> (OCrash, c))
   | None -> reraise_dynamic c
 
-(** val exec_sch : bool -> cstmt -> state -> oc * state **)
+(** val exec_sch : bool -> bool -> cstmt -> state -> oc * state **)
 
-let rec exec_sch fx s c =
+let rec exec_sch fx sx s c =
   match s with
   | CSkip -> (ONorm, c)
   | CLog n0 -> (ONorm, (logst (fun _ _ -> EvLog n0) c))
@@ -507,32 +507,33 @@ let rec exec_sch fx s c =
   | CRaise (w, cz) -> lift (do_raise w cz) c
   | CReraise -> reraise_sch fx c
   | CSeq (a, b) ->
-    let (o, c1) = exec_sch fx a c in
+    let (o, c1) = exec_sch fx sx a c in
     (match o with
-     | ONorm -> exec_sch fx b c1
+     | ONorm -> exec_sch fx sx b c1
      | _ -> (o, c1))
   | CTry (body, hs, orelse) ->
-    let saved = handled c in
-    let (o, c1) = exec_sch fx body c in
+    let saved = if sx then c.top else handled c in
+    let (o, c1) = exec_sch fx sx body c in
     (match o with
      | ONorm ->
-       let (o2, c2) = exec_sch fx orelse c1 in
+       let (o2, c2) = exec_sch fx sx orelse c1 in
        (match o2 with
         | ONorm -> (o2, c2)
         | OCrash -> (o2, c2)
         | _ -> (o2, (set_top saved c2)))
-     | ORaise e -> handle_sch fx hs e saved c1
+     | ORaise e -> handle_sch fx sx hs e saved c1
      | OCrash -> (OCrash, c1)
      | _ -> (o, (set_top saved c1)))
   | CFinally (herr, body, fin) ->
-    let (o, c1) = exec_sch fx body c in
+    let (o, c1) = exec_sch fx sx body c in
     (match o with
      | ORaise e ->
        if herr
        then let saved = c1.top in
             let old = c1.cur in
             let (o2, c2) =
-              exec_sch fx fin (set_cur (Some (Some e)) (set_top (Some e) c1))
+              exec_sch fx sx fin
+                (set_cur (Some (Some e)) (set_top (Some e) c1))
             in
             let v = c2.cur in
             let c3 = set_cur old c2 in
@@ -548,13 +549,13 @@ let rec exec_sch fx s c =
              | _ -> (o2, (set_top saved c3)))
        else ((ORaise e), c1)
      | OCrash -> (OCrash, c1)
-     | _ -> let (o2, c2) = exec_sch fx fin c1 in ((after o o2), c2))
+     | _ -> let (o2, c2) = exec_sch fx sx fin c1 in ((after o o2), c2))
   | CLoop (n0, body) ->
     let rec loop i c0 =
       match i with
       | O -> (ONorm, c0)
       | S i' ->
-        let (o, c1) = exec_sch fx body c0 in
+        let (o, c1) = exec_sch fx sx body c0 in
         (match o with
          | ONorm -> loop i' c1
          | OBrk -> (ONorm, c1)
@@ -568,7 +569,7 @@ let rec exec_sch fx s c =
   | CWithScope (k, body) ->
     let old = c.wx in
     let (o, c1) =
-      exec_sch fx body (set_wx true (logst (fun _ _ -> EvEnter k) c))
+      exec_sch fx sx body (set_wx true (logst (fun _ _ -> EvEnter k) c))
     in
     (o, (set_wx old c1))
   | CExitExc (k, x) ->
@@ -589,9 +590,9 @@ let rec exec_sch fx s c =
     else (ONorm, c)
 
 (** val handle_sch :
-    bool -> chandlers -> nat -> nat option -> state -> oc * state **)
+    bool -> bool -> chandlers -> nat -> nat option -> state -> oc * state **)
 
-and handle_sch fx hs e saved c =
+and handle_sch fx sx hs e saved c =
   match hs with
   | CHNil -> ((ORaise e), (set_top saved c))
   | CHCons (pat, name, body, tl) ->
@@ -604,15 +605,15 @@ and handle_sch fx hs e saved c =
                 set_cur (Some (Some e))
                   (set_co (bind_opt name e c.co) (set_top (Some e) c))
               in
-              let (o, c2) = exec_sch fx body c1 in
+              let (o, c2) = exec_sch fx sx body c1 in
               (match o with
                | OCrash -> (OCrash, c2)
                | _ -> (o, (set_top saved (set_cur old c2))))
-         else let (o, c1) = exec_sch fx body c in
+         else let (o, c1) = exec_sch fx sx body c in
               (match o with
                | OCrash -> (OCrash, c1)
                | _ -> (o, (set_top saved c1)))
-    else handle_sch fx tl e saved c
+    else handle_sch fx sx tl e saved c
 
 (** val init_state : eobj list -> nat option -> nat option -> state **)
 
@@ -627,7 +628,8 @@ let run_ref s h t b =
   exec_ref s (init_state h t b)
 
 (** val run_sch :
-    bool -> stmt -> eobj list -> nat option -> nat option -> oc * state **)
+    bool -> bool -> stmt -> eobj list -> nat option -> nat option ->
+    oc * state **)
 
-let run_sch fx s h t b =
-  exec_sch fx (desugar s) (init_state h t b)
+let run_sch fx sx s h t b =
+  exec_sch fx sx (desugar s) (init_state h t b)
